@@ -30,22 +30,10 @@ __CPROVER_ensures(g_pipe_close_calls == OLD(g_pipe_close_calls) + 1 && g_pipe_cl
 #define X_DISCONN (g_pipe_close_calls == OLD(g_pipe_close_calls) + 1)
 #define X_DROPPED (g_pipe_recv_calls == OLD(g_pipe_recv_calls) + 1)
 #define X_HL (OLD(XM)->m_header_len)
-#ifdef XR_MUT1
-#define XR_MUT1V 1
-#else
-#define XR_MUT1V 0
-#endif
-#ifdef XR_MUT2
-#define XR_MUT2V 1
-#else
-#define XR_MUT2V 0
-#endif
 static void xrep0_pipe_recv_cb(void *arg)
 __CPROVER_requires(__CPROVER_is_fresh(arg, sizeof(struct xrep0_pipe)))
 __CPROVER_requires(__CPROVER_is_fresh(XS, sizeof(struct xrep0_sock)) && RR_TTL_OK(XS->ttl.v) && VP_NO_LOCK_HELD)
 __CPROVER_requires(XP->aio_recv.a_result == 0 && RR_WIRE_MSG(XM) && CH_GHOST_PRE(&XM->m_body) && RR_BODY_GHOSTS(XM))
-/* case split over the GHOST index only (the two units together cover every g_k) */
-__CPROVER_requires(RR_GK_CASE)
 __CPROVER_assigns(XP->aio_recv.a_msg, XP->aio_putq.a_msg, VP_PROTO_GHOST_LIST, VP_RR_GHOST_LIST, g_free_calls)
 __CPROVER_assigns(*XM)
 __CPROVER_frees(XM, XM->m_body.ch_buf)
@@ -54,25 +42,19 @@ __CPROVER_ensures(VP_NO_LOCK_HELD && XP->aio_recv.a_msg == NULL)
 __CPROVER_ensures((X_DELIVERED && g_pipe_close_calls == OLD(g_pipe_close_calls) && g_pipe_recv_calls == OLD(g_pipe_recv_calls) && !__CPROVER_was_freed(OLD(XM)))
     || (g_rr.put_calls == OLD(g_rr.put_calls) && X_DISCONN && g_pipe_recv_calls == OLD(g_pipe_recv_calls) && __CPROVER_was_freed(OLD(XM)))
     || (g_rr.put_calls == OLD(g_rr.put_calls) && g_pipe_close_calls == OLD(g_pipe_close_calls) && X_DROPPED && __CPROVER_was_freed(OLD(XM))))
-#ifndef RR_SKIP_BYTES
 /* disconnected ==> GARBAGE: fewer than ttl complete words and none of them is a request id */
-__CPROVER_ensures(X_DISCONN ==> (g_pipe_close_last == XP->pipe && (XOLDLEN >> 2) + XR_MUT2V < (size_t) XS->ttl.v && RR_NO_END_BELOW((XOLDLEN >> 2))))
+__CPROVER_ensures(X_DISCONN ==> (g_pipe_close_last == XP->pipe && (XOLDLEN >> 2) < (size_t) XS->ttl.v && RR_NO_END_BELOW((XOLDLEN >> 2))))
 /* dropped ==> TOOMANY: the first ttl words exist and none is a request id; NOT disconnected, receive re-armed */
 __CPROVER_ensures(X_DROPPED ==> (g_pipe_recv_pipe == XP->pipe && g_pipe_recv_aio == &XP->aio_recv && (XOLDLEN >> 2) >= (size_t) XS->ttl.v && RR_NO_END_BELOW(XS->ttl.v)))
 /* delivered ==> ACCEPT: header = [pipe id][w_0..w_n] with n+1 <= ttl words moved, at most 64 bytes;
  * w_n is the first word with the high bit; body = the rest, unchanged; handed up to the socket's receive queue */
-__CPROVER_ensures(X_DELIVERED ==> (X_HL >= 8 && (X_HL & 3) == 0 && X_HL <= MSG_HDRCAP && (X_HL >> 2) - 1 <= (size_t) XS->ttl.v - XR_MUT1V
+__CPROVER_ensures(X_DELIVERED ==> (X_HL >= 8 && (X_HL & 3) == 0 && X_HL <= MSG_HDRCAP && (X_HL >> 2) - 1 <= (size_t) XS->ttl.v
     && BE32(HDR(OLD(XM))) == g_pipe_id && OLD(XM)->m_pipe == g_pipe_id
     && X_HL - 4 <= XOLDLEN && OLD(XM)->m_body.ch_len == XOLDLEN - (X_HL - 4)
     && g_rr.put_q == XS->urq && g_rr.put_aio == &XP->aio_putq && g_rr.put_msg == OLD(XM) && XP->aio_putq.a_msg == OLD(XM)))
-#ifndef RR_T_NOHDR
 __CPROVER_ensures((X_DELIVERED && g_k < X_HL - 4) ==> HDR(OLD(XM))[4 + g_k] == g_b)
-#endif
 __CPROVER_ensures(X_DELIVERED ==> (RR_NO_END_BELOW((X_HL >> 2) - 2) && (g_k == X_HL - 8 ==> RR_HB(g_b))))
-#ifndef RR_T_NOBODY
 __CPROVER_ensures((X_DELIVERED && g_k >= X_HL - 4 && g_k < XOLDLEN) ==> OLD(XM)->m_body.ch_ptr[g_k - (X_HL - 4)] == g_b)
-#endif
-#endif
 ;
 #endif
 
